@@ -5,7 +5,7 @@
    state reachable by any history, any failure kinds and flaky script, any modes. *)
 From Coq Require Import ZArith List Bool Permutation.
 From Common Require Import Res.
-From Core Require Import World Model Step Reach Inv_Tl Proofs_C04.
+From Core Require Import World Model Step Reach Inv_Tl Proofs_C04 CostN.
 Import ListNotations.
 Open Scope Z_scope.
 
@@ -25,3 +25,28 @@ Theorem C04_op_terminates :
   fst (run_op shuf fuel o w) <> Diverge.
 Proof. exact op_terminates_lemma. Qed.
 Print Assumptions C04_op_terminates.
+
+(* The quantitative clause.  `bcalls` counts every interaction with backend.playback / the audio
+   proxy (prepare_change, change_track, play/pause/resume/stop, seek, get_time_position: the
+   counter the harness' scripted backend keeps; the correspondence compares it after every
+   operation).  From ANY state whatsoever (no invariant assumed: states left behind by failed
+   changes included), for any fuel, any failure kinds and script, any modes, one operation -
+   client call or audio notification handler, with any shuffle oracle - makes at most 28 * n + 19 backend interactions,
+   n = the tracklist length when the request starts (for Load: the length of the restored
+   tracklist). *)
+Theorem C04_linear_bound :
+  forall shuf fuel o w r w', run_op shuf fuel o w = (r, w') ->
+  bcalls w' <= bcalls w + 28 * op_size o w + 19.
+Proof. exact run_op_linear. Qed.
+Print Assumptions C04_linear_bound.
+
+(* the bound is not vacuous and the growth is really linear: with n refusing tracks and repeat on play()
+   runs its 2 n iterations, two interactions each *)
+Definition refusing (n : nat) : world :=
+  run_world shuf_concrete 400 (init_world 50 (List.repeat Refuse n) (List.repeat (Some 1000) n) [] None None)
+    [Add (map Z.of_nat (seq 0 n)) None; SetMode 2 true].
+Example C04_linear_growth :
+  map (fun n => bcalls (snd (run_op shuf_concrete 400 (Play None) (refusing n))) - bcalls (refusing n)) [1; 2; 5; 10]%nat
+  = [4; 8; 20; 40].
+Proof. vm_compute. reflexivity. Qed.
+Print Assumptions C04_linear_growth.
